@@ -102,6 +102,31 @@ def strip(t):
             return t
 
 
+STR_EQ = {'<std::string::String as std::cmp::PartialEq>::eq', '<str as std::cmp::PartialEq>::eq', '<std::string::String as std::cmp::PartialEq<str>>::eq',
+          '<std::string::String as std::cmp::PartialEq<&str>>::eq', '<str as std::cmp::PartialEq<std::string::String>>::eq',
+          '<&str as std::cmp::PartialEq<std::string::String>>::eq'}
+STR_VIEWS = ('String::as_str', 'Deref>::deref', 'AsRef<str>>::as_ref', 'Borrow<str>>::borrow')
+
+
+def str_strip(t):
+    """look through references, derefs and borrowed views of a string"""
+    while True:
+        t2 = strip(t)
+        if t2[0] == 'call' and any(t2[1].endswith(v) for v in STR_VIEWS) and len(t2[2]) == 1:
+            t2 = t2[2][0]
+        if t2 == t:
+            return t
+        t = t2
+
+
+def closure_snapshots(outs, name):
+    for o in outs:
+        for e in o.events:
+            if e[0] == 'closure' and e[1].startswith(name):
+                return list(e[2])
+    return []
+
+
 def r3_selection(ctx):
     rule = 'C14.R3-selection'
     facts = ctx.facts
@@ -120,14 +145,66 @@ def r3_selection(ctx):
                     strip(dict(o.value[4])['0']) == strip(ap[0][2][0])
     ctx.ob(rule, name, 'plays and returns the first generated move of the side to move matching the predicate', ok,
            expected='generate_moves(board, board.turn()).iter().find(pred)')
-    pred_ok = False
+    # predicate as a truth function of the two atoms (move.from == typed from), (move.to == typed to)
+    snaps = closure_snapshots(outs, name)
+    pred_ok, found = False, None
     for c in facts.closures_of(name):
         o2 = Engine(facts, readonly={CHESSMOVE + '::from_square', CHESSMOVE + '::to_square'}).run(c.name)
-        trues = [o for o in o2 if o.kind == 'return' and (o.value == C(True) or (o.value[0] in ('eqc', 'bin', 'eq', 'un', 'and')))]
-        txt = ' '.join(show(o.value) + ' ' + ' '.join(show_cond(x) for x in o.conds) for o in o2)
-        pred_ok = 'from_square' in txt and 'to_square' in txt and 'upvar0' in txt and 'upvar1' in txt
         ctx.touch(c.name)
-    ctx.ob(rule, name, 'predicate: from == typed from && to == typed to', pred_ok, expected='m.from_square() == from && m.to_square() == to')
+        atoms = {}
+
+        def atom(t):
+            """('from'|'to', param index) for `m.<x>_square() == upvarK`"""
+            if t[0] == 'bin' and t[1] == 'Eq':
+                for a, b in ((t[2], t[3]), (t[3], t[2])):
+                    a, b = strip(a), strip(b)
+                    if a[0] == 'fld' and a[2] == '0':
+                        a = strip(a[1])
+                    if b[0] == 'fld' and b[2] == '0':
+                        b = strip(b[1])
+                    if a[0] == 'call' and a[1] in (CHESSMOVE + '::from_square', CHESSMOVE + '::to_square') and b[0] == 'fld' and b[2].startswith('upvar'):
+                        k = int(b[2][5:])
+                        return (a[1].rsplit('::', 1)[1], show(snaps[k]) if k < len(snaps) else '?')
+            return None
+        rows = []
+        okrows = True
+        for o in o2:
+            if o.kind != 'return':
+                okrows = False
+                continue
+            env = {}
+            for a, v in o.conds:
+                k = atom(a)
+                if k is None or not (is_true(v) or is_false(v)):
+                    okrows = False
+                else:
+                    env[k] = is_true(v)
+            val = o.value
+            if val[0] == 'c':
+                res = bool(val[1])
+            else:
+                k = atom(val)
+                if k is None:
+                    okrows = False
+                    res = None
+                else:
+                    res = ('atom', k)
+            rows.append((env, res))
+        A, B = ('from_square', 'arg2'), ('to_square', 'arg3')
+        # evaluate on the four assignments
+        table = {}
+        for va in (False, True):
+            for vb in (False, True):
+                full = {A: va, B: vb}
+                r = None
+                for env, res in rows:
+                    if all(k in full and full[k] == v for k, v in env.items()):
+                        r = full.get(res[1]) if isinstance(res, tuple) else res
+                        break
+                table[(va, vb)] = r
+        found = {'rows': [(sorted((str(k), v) for k, v in env.items()), str(res)) for env, res in rows], 'table': {str(k): v for k, v in table.items()}}
+        pred_ok = okrows and table == {(False, False): False, (False, True): False, (True, False): False, (True, True): True}
+    ctx.ob(rule, name, 'predicate: from == typed from && to == typed to', pred_ok, found=found, expected='m.from_square() == from && m.to_square() == to (exact equality on both squares)')
     # notation
     name, outs = game_outcomes(ctx, 'apply_chess_move_from_raw_algebraic_notation')
     ok = False
@@ -141,13 +218,23 @@ def r3_selection(ctx):
                     en[0][2][0] == ('ref', ('fld', ('der', ('p', 1)), 'board')) and \
                     'turn' in show(en[0][2][1]) and any(s[0] == 'call' and s[1].endswith('Iterator>::find') for s in subterms(ap[0][2][0]))
     ctx.ob(rule, name, 'plays the first (move, label) pair of the side to move whose label equals the input', ok, expected='enumerate(..).iter().find(|m| m.1 == input).0')
-    pred_ok = False
+    snaps = closure_snapshots(outs, name)
+    pred_ok, found = False, None
     for c in facts.closures_of(name):
         o2 = Engine(facts).run(c.name)
-        txt = ' '.join(show(o.value) for o in o2 if o.value)
-        pred_ok = 'upvar0' in txt and ('.1' in txt) and ('eq' in txt.lower() or '==' in txt)
         ctx.touch(c.name)
-    ctx.ob(rule, name, 'predicate: label == typed string', pred_ok, expected='m.1 == algebraic')
+        rets = [o for o in o2 if o.kind == 'return']
+        found = [(show(o.value), [show_cond(x) for x in o.conds]) for o in o2]
+        if len(o2) == 1 and len(rets) == 1 and not rets[0].conds:
+            v = rets[0].value
+            if v[0] == 'call' and v[1] in STR_EQ and len(v[2]) == 2:
+                a, b = str_strip(v[2][0]), str_strip(v[2][1])
+                if b[0] == 'fld' and b[2] == '1':
+                    a, b = b, a
+                pred_ok = a[0] == 'fld' and a[2] == '1' and strip(a[1]) == ('p', 2) and b[0] == 'fld' and b[2] == 'upvar0' and \
+                    len(snaps) >= 1 and show(snaps[0]) == 'arg2'
+    ctx.ob(rule, name, 'predicate: label == typed string', pred_ok, found=found, expected='m.1 == algebraic (exact, case-sensitive string equality)',
+           why='labels are unique only up to exact equality: `bxc3` (pawn) and `Bxc3` (bishop) differ by case alone')
     v = facts.consts.get('chess::move_generator::PAWN_PROMOTIONS')
     first = v[1][0][2] if isinstance(v, tuple) and v[0] == 'array' and v[1] else None
     ctx.ob(rule, 'chess::move_generator::PAWN_PROMOTIONS', 'queen promotion is generated first (first match = queen)', first == 'Queen', found=first, expected='Queen')
